@@ -73,4 +73,10 @@ PROPS["C13"] = {
     "assumptions": ["side invariant is checked as: the swept angle of an edge path round a non-end node changes by less than 1.5*pi in one step", "resize() and force-driven steps are outside the alphabet; steps are the moveTo form"],
     "parts": [{"name": "topology", "src": "c13_topology.cpp", "quick": T(100, 20, [], 100), "thorough": T(1500, 20, [], 100)}],
 }
+PROPS["C14"] = {
+    "rule": "every labelled connected simple graph on n nodes through doHOLA under: start placement in {circle, all coincident, line} x node sizes in {30x30, mixed} x useACAforLinks x do_near_align x preferred aspect ratio (n<=4: full product; n=5: link mode x near-align). Oracle: same node/edge sets, sizes to 1e-9, no node overlap (1e-6), every route segment axis-parallel (1e-6), routes begin/end inside their end nodes and meet no third node, the returned SepMatrix constraints (translated by the library's own generator) hold at the returned positions (1e-4). Non-trivial = graph has a cycle (|E|>=|V|).",
+    "bounds": {"quick": "n<=4 x 72 configurations, n=5 x 4", "thorough": "n=5 x 12, n=6 x 4"},
+    "assumptions": ["axis-parallel to 1e-6 (HOLA coordinates come from a numeric layout)", "satisfaction of returned constraints is judged through SepPair::generateSeparationConstraint"],
+    "parts": [{"name": "hola", "src": "c14_hola.cpp", "quick": T(150, 60, [], 100), "thorough": T(1700, 120, [], 100)}],
+}
 NOT_APPLICABLE = {}
